@@ -203,3 +203,41 @@ def r_body_scope(P, rep, pu, it, f, paths):
                           'an enumerator' if t != 'tags' else 'a struct/union/enum tag'), where=w, facts={'path': ctx.trail[-6:]})
     if not n:
         rep.undecided(BODY_RULE, '%s:%s:body-scope' % (U, f), 'no path of %s() hands a body to %s() with a function type whose parameter-list scope is known to be recorded or absent' % (f, BODY_PARSER), where=w)
+
+
+def r_scope_recorded(P, rep):
+    """the other half of R03.20: the parameter-type-list parser records, in the function type it returns, the scope the list was parsed in"""
+    pu = P.unit(U)
+    saved_fields = _scope_links(pu, 'Type')
+    lists = sorted(f for f, fd in pu.functions.items() if f != FUNC_TYPE and {FUNC_TYPE, SPECIFIERS, OPEN} <= _callees(fd))
+    if not saved_fields or not lists:
+        return          # r_body_scope reports the missing member; a list parser that opens no scope itself is R03.17's business
+    for f in lists:
+        w = '%s:%d' % (U, pu.fn(f).line)
+        key = '%s:%s:returned-function-type-records-the-list-scope' % (U, f)
+        try:
+            opaque = sorted(g for g in _callees(pu.functions[f]) if g not in (f, OPEN, CLOSE) and g in pu.functions)
+            it = Interp(P, pu, {'opaque': opaque, 'loop_limit': 1, 'track_stores': True, 'globals': {'scope': lambda ctx: Obj('Scope', lazy=True, label='scope')}})
+            res = it.explore(f, _args(pu, f), max_paths=4000)
+        except Exception as e:
+            rep.undecided(BODY_RULE, key, 'cannot explore: %s: %s' % (type(e).__name__, e), where=w)
+            continue
+        n = 0
+        for ctx, out in res:
+            if out[0] != 'ret' or not any(e[0] == 'call' and e[1] == SPECIFIERS for e in ctx.events):
+                continue
+            it.ctx = ctx
+            r = _settled(it, out[1])
+            made = [e[1] for e in ctx.events if e[0] == 'fstore' and isinstance(e[1], Obj) and e[1].tname == 'Scope' and e[2] in _scope_links(pu, 'Scope') and e[3] is None]
+            if not isinstance(r, Obj) or len(made) != 1:
+                rep.undecided(BODY_RULE, key, 'a path of %s() that parses parameter declarations opens %d scopes / returns a value the analysis does not follow' % (f, len(made)), where=w)
+                continue
+            n += 1
+            for sf in saved_fields:
+                v = _settled(it, r.fields.get(sf)) if sf in r.fields else None
+                rep.ob(BODY_RULE, key, v is made[0],
+                       '%s() parses the parameter declarations in a scope of their own and returns a function type whose `%s` is %s: a function definition continues that scope in its body (C11 6.2.1p4), '
+                       'but the tables the list filled are lost, so an enumerator or tag declared among the parameters is not visible in the body'
+                       % (f, sf, 'not set' if v is None else 'another scope than the one the list was parsed in'), where=w, facts={'path': ctx.trail[-6:]})
+        if not n:
+            rep.undecided(BODY_RULE, key, 'no returning path of %s() parses a parameter declaration' % f, where=w)
